@@ -1107,7 +1107,7 @@ class SingleInstancePredictor(Predictor):
                 f"{self.backbone_type}"
             ]["max_stride"]
 
-            self.preprocess = False
+            self.preprocess = True
             self.preprocess_config = {
                 "batch_size": self.batch_size,
                 "scale": self.confmap_config.data_config.preprocessing.scale,
@@ -1481,7 +1481,7 @@ class BottomUpPredictor(Predictor):
                 f"{self.backbone_type}"
             ]["max_stride"]
 
-            self.preprocess = False
+            self.preprocess = True
             self.preprocess_config = {
                 "batch_size": self.batch_size,
                 "scale": self.bottomup_config.data_config.preprocessing.scale,
